@@ -1218,6 +1218,21 @@ def hist_step(H):
             ctx.fail("eq_reflects_content", "%s == container rebuilt from the model is False" % where)
         if cont == 5:
             ctx.fail("eq_reflects_content", "%s == 5" % where)
+        if len(keys) > 1:
+            # a mapping's equality does not depend on insertion order: same content, keys inserted in another order
+            order = [keys[int(i)] for i in rng.permutation(len(keys))]
+            sm = {k: m[k] for k in order}
+            if level == 2:
+                csm = CatModel(sm)
+                csm.nrows = m.nrows
+                sm = csm
+            shuffled = make(flv, sm, level, int(rng.integers(12)))
+            if flv.binary and not allowed(ctx, T_BCIF_EQ):
+                shuffled.serialize()
+            ctx.oracle("eq_reflects_content")
+            if not (cont == shuffled) or not (shuffled == cont):
+                ctx.fail("eq_reflects_content", "%s == container with the same content inserted in another key order is False" % where,
+                         order=[str(k) for k in order])
         if level == 2 and keys:
             k = pick(rng, keys)
             col, tcol = cont[k], make(flv, m[k], 3, int(rng.integers(12)))
